@@ -10,6 +10,38 @@ theorem lowWidthOf_lt (n u : Nat) : lowWidthOf n u < 64 := by
   unfold lowWidthOf
   split <;> omega
 
+theorem lowWidthOf_bound (n u : Nat) (hn : 0 < n) (hu1 : 0 < u) (hu : u < 2 ^ 64) :
+    (u - 1) >>> lowWidthOf n u < 2 * n := by
+  unfold lowWidthOf
+  by_cases h : n = 0 ∨ u ≤ n
+  · rw [if_pos h]; simp; omega
+  · rw [if_neg h]
+    have hx : 0 < u / n := Nat.div_pos (by omega) hn
+    have hx64 : u / n < 2 ^ 64 := Nat.lt_of_le_of_lt (Nat.div_le_self _ _) hu
+    have hne : BitVec.ofNat 64 (u / n) ≠ 0#64 := by
+      intro h0
+      have := congrArg BitVec.toNat h0
+      simp [Nat.mod_eq_of_lt hx64] at this
+      omega
+    have hclz : (BitVec.ofNat 64 (u / n)).clz.toNat < 64 := by
+      have := (BitVec.clz_lt_iff_ne_zero (x := BitVec.ofNat 64 (u / n))).mpr hne
+      simpa [BitVec.lt_def] using this
+    have hlt := BitVec.toNat_lt_two_pow_sub_clz (x := BitVec.ofNat 64 (u / n))
+    rw [BitVec.toNat_ofNat, Nat.mod_eq_of_lt hx64] at hlt
+    unfold lz64
+    generalize (BitVec.ofNat 64 (u / n)).clz.toNat = z at *
+    have e : 64 - z = (64 - z - 1) + 1 := by omega
+    rw [e] at hlt
+    generalize 64 - z - 1 = w at *
+    rw [Nat.shiftRight_eq_div_pow, Nat.div_lt_iff_lt_mul (Nat.pow_pos (by omega))]
+    have h2 : u < 2 ^ (w + 1) * n := by
+      have := (Nat.div_lt_iff_lt_mul hn).mp hlt
+      exact this
+    rw [Nat.pow_succ] at h2
+    have : 2 * n * 2 ^ w = 2 ^ w * 2 * n := by
+      rw [Nat.mul_comm (2 * n), ← Nat.mul_assoc]
+    omega
+
 /-- What `build` establishes. -/
 structure Built (R : Nat) (vs : List Nat) (ef : EliasFano) : Prop where
   len : ef.len = vs.length
@@ -20,6 +52,8 @@ structure Built (R : Nat) (vs : List Nat) (ef : EliasFano) : Prop where
   high : ∀ q, getBit ef.highBits q = decide (q ∈ posList ef.lowWidth vs 0)
   highsz : ∀ p ∈ posList ef.lowWidth vs 0, p < 64 * ef.highBits.length
   samples : ef.selectSamples = sampleLoop R ((vs.length + R - 1) / R) ef.highBits 0 0 0 []
+  highlen : 64 * ef.highBits.length ≤ vs.length + (vs.getLastD 0 >>> ef.lowWidth) + 64
+  width : vs ≠ [] → ef.lowWidth = lowWidthOf vs.length (vs.getLastD 0 + 1)
 
 theorem sorted_le_last (vs : List Nat) (hs : EFSpec.Sorted vs) (j v : Nat) (hj : vs[j]? = some v) :
     v ≤ vs.getLastD 0 := by
@@ -115,6 +149,9 @@ theorem build_ok (R : Nat) (vs : List Nat) (hs : EFSpec.Sorted vs) (hu : EFSpec.
       show p < 64 * high'.length
       rw [hh2]; exact hpos p hp
     · rfl
+    · show 64 * high'.length ≤ _
+      rw [hh2]; simp only [List.length_replicate]; omega
+    · exact fun _ => hw.symm
 
 /-- The high bits are the unary code: the `k`-th one sits at `(vs[k] >>> w) + k`. -/
 theorem Built.select_high {R : Nat} {vs : List Nat} {ef : EliasFano} (hb : Built R vs ef)
@@ -150,4 +187,20 @@ theorem Built.count_high {R : Nat} {vs : List Nat} {ef : EliasFano} (hb : Built 
       rw [List.getElem?_eq_getElem this] at h2
       simp at h2
 
-end SV.EF
+/-- At most `(2^32 - 64) / 3` elements: every high-bit position (hence every select sample) fits
+`u32`. -/
+theorem Built.high_fits {R : Nat} {vs : List Nat} {ef : EliasFano} (hb : Built R vs ef)
+    (hu : EFSpec.AllU32 vs) (hn : 3 * vs.length + 64 ≤ 2 ^ 32) : 64 * ef.highBits.length ≤ 2 ^ 32 := by
+  have h1 := hb.highlen
+  by_cases he : vs = []
+  · subst he; simp at h1; omega
+  · have hw := hb.width he
+    have hpos : 0 < vs.length := by cases vs <;> simp_all
+    have hlast : vs.getLastD 0 < 2 ^ 32 := by
+      rw [List.getLastD_eq_getLast?]
+      cases hl : vs.getLast? with
+      | none => simp
+      | some m => have := hu m (List.mem_of_getLast? hl); simpa using this
+    have := lowWidthOf_bound vs.length (vs.getLastD 0 + 1) hpos (by omega) (by omega)
+    rw [← hw, Nat.add_sub_cancel] at this
+    omega
